@@ -230,6 +230,9 @@ func VerifSubRequests() {
 		if len(p.typ) > 2 && p.typ[:2] == "__" {
 			continue // selections inside an introspection field
 		}
+		if p.field == "id" && covered[vPair{"Node", "id"}] {
+			continue // id selected through the Node interface (next to the fragments) answers for every implementation
+		}
 		verifAssert(covered[p], "every client-selected field is requested from a service that declares it: "+p.typ+"."+p.field)
 	}
 	_, _ = clientCount, subCount
